@@ -1,4 +1,4 @@
-import CfbVerif.Dir.Model
+import CfbVerif.Dir.Handles
 import CfbVerif.Time.Model
 import CfbVerif.Drv.Util
 import CfbVerif.Drv.Names
@@ -36,8 +36,15 @@ def showTable (s : State) : String :=
   ";".intercalate (((dirtable s).foldr insertRow []).map showRow)
 
 structure St where
-  s : State
+  s : SState
   live : Bool
+
+def showHandles (hs : List HandleRec) : String :=
+  if hs.isEmpty then "-" else
+  ";".intercalate ((hs.foldr insertById []).map (fun r =>
+    s!"{r.id}:{r.slot}:{r.h.totalLen}:{r.h.off}:{r.h.pos}:{r.h.win.length}:{r.h.dataLen}:{if r.h.dirty then 1 else 0}"))
+
+def tail (s : SState) : String := showTable s.base ++ " | " ++ showHandles s.handles
 
 def streamsOf (infos : List Info) (s : State) : List String :=
   infos.filterMap (fun i =>
@@ -91,22 +98,52 @@ def parseOp (ws : List String) : Option (Option Op) :=
   | ["flush"] => some (some .flush)
   | _ => none
 
+def parseHOp (ws : List String) : Option HOp :=
+  match ws with
+  | ["hopen", id, p] => id.toNat?.map (fun i => .hopen i (decName p))
+  | ["hcreate", id, p] => id.toNat?.map (fun i => .hcreate i (decName p) true)
+  | ["hnew", id, p] => id.toNat?.map (fun i => .hcreate i (decName p) false)
+  | ["hwrite", id, h] => id.toNat?.map (fun i => .hwrite i (bytesOfHex h))
+  | ["hread", id, n] => match id.toNat?, n.toNat? with
+    | some i, some n => some (.hread i n)
+    | _, _ => none
+  | ["hseek", id, n] => match id.toNat?, n.toNat? with
+    | some i, some n => some (.hseek i n)
+    | _, _ => none
+  | ["hsetlen", id, n] => match id.toNat?, n.toNat? with
+    | some i, some n => some (.hsetlen i n)
+    | _, _ => none
+  | ["hflush", id] => id.toNat?.map .hflush
+  | ["hlen", id] => id.toNat?.map .hlen
+  | ["hclose", id] => id.toNat?.map .hclose
+  | _ => none
+
+def showHOut : HOut → String
+  | .base o => showOut o
+  | .noHandle => "err nohandle"
+
 def stepLine (st : St) (line : String) : St × String :=
   match words line with
   | ["create", _v] =>
-    let s := State.create
-    ({ s := s, live := true }, "ok | " ++ showTable s)
-  | ["snap", _] => (st, dump st.s ++ " | " ++ showTable st.s)
+    let s : SState := { base := State.create, handles := [], maxBuf := CfbVerif.Gen.DEFAULT_STREAM_MAX_BUFFER_SIZE }
+    ({ s := s, live := true }, "ok | " ++ tail s)
+  | ["snap", _] => (st, dump st.s.base ++ " | " ++ tail st.s)
   | ws =>
-    if !st.live then (st, "err nofile | -") else
-    match parseOp ws with
-    | some (some op) =>
-      let (s', o) := step st.s op
-      ({ st with s := s' }, showOut o ++ " | " ++ showTable s')
-    | some none => (st, "unrepresentable | " ++ showTable st.s)
-    | none => (st, "bad-op | -")
+    if !st.live then (st, "err nofile | - | -") else
+    match parseHOp ws with
+    | some hop =>
+      let (s', o) := hstep st.s hop
+      ({ st with s := s' }, showHOut o ++ " | " ++ tail s')
+    | none =>
+      match parseOp ws with
+      | some (some op) =>
+        let (s', o) := hstep st.s (.base op)
+        ({ st with s := s' }, showHOut o ++ " | " ++ tail s')
+      | some none => (st, "unrepresentable | " ++ tail st.s)
+      | none => (st, "bad-op | - | -")
 
 def main : IO Unit := do
-  lineLoop (← IO.getStdin) (← IO.getStdout) ({ s := State.create, live := false } : St) stepLine
+  lineLoop (← IO.getStdin) (← IO.getStdout)
+    ({ s := { base := State.create, handles := [], maxBuf := 0 }, live := false } : St) stepLine
 
 end CfbVerif.Drv.Api
